@@ -670,3 +670,384 @@ Example ex_first_error :
   max_ [VTuple [VTuple [VInt 1; excelutil.c_NA_ERROR]; VTuple [excelutil.c_DIV0; VInt 2]]]
   = Ok excelutil.c_NA_ERROR.
 Proof. vm_compute. reflexivity. Qed.
+
+(* ------------------------------------------------------------- SUBTOTAL *)
+(* the text of a literal function number, as FunctionNode emits it *)
+Definition lit (s : list Z) : pyval := VStr s.
+
+(* SUBTOTAL(n, ...) and SUBTOTAL(100+n, ...) are the aggregate the generated
+   table names, for the five aggregates of this property *)
+Lemma subtotal_thm : forall v_args,
+  (subtotal (lit [49]) v_args = stats.f_average v_args            (* 1 *)
+   /\ subtotal (lit [49; 48; 49]) v_args = stats.f_average v_args)   (* 101 *)
+  /\ (subtotal (lit [50]) v_args = stats.f_count v_args
+      /\ subtotal (lit [49; 48; 50]) v_args = stats.f_count v_args)
+  /\ (subtotal (lit [52]) v_args = stats.f_max_ v_args
+      /\ subtotal (lit [49; 48; 52]) v_args = stats.f_max_ v_args)
+  /\ (subtotal (lit [53]) v_args = stats.f_min_ v_args
+      /\ subtotal (lit [49; 48; 53]) v_args = stats.f_min_ v_args)
+  /\ (subtotal (lit [57]) v_args = aggregates.f_sum_ v_args
+      /\ subtotal (lit [49; 48; 57]) v_args = aggregates.f_sum_ v_args).
+Proof.
+  intros v_args. unfold subtotal, lit.
+  replace (subtotal_name (VStr [49])) with (Ok (VStr [97; 118; 101; 114; 97; 103; 101]))
+    by (vm_compute; reflexivity).
+  replace (subtotal_name (VStr [49; 48; 49])) with (Ok (VStr [97; 118; 101; 114; 97; 103; 101]))
+    by (vm_compute; reflexivity).
+  replace (subtotal_name (VStr [50])) with (Ok (VStr [99; 111; 117; 110; 116]))
+    by (vm_compute; reflexivity).
+  replace (subtotal_name (VStr [49; 48; 50])) with (Ok (VStr [99; 111; 117; 110; 116]))
+    by (vm_compute; reflexivity).
+  replace (subtotal_name (VStr [52])) with (Ok (VStr [109; 97; 120; 95]))
+    by (vm_compute; reflexivity).
+  replace (subtotal_name (VStr [49; 48; 52])) with (Ok (VStr [109; 97; 120; 95]))
+    by (vm_compute; reflexivity).
+  replace (subtotal_name (VStr [53])) with (Ok (VStr [109; 105; 110; 95]))
+    by (vm_compute; reflexivity).
+  replace (subtotal_name (VStr [49; 48; 53])) with (Ok (VStr [109; 105; 110; 95]))
+    by (vm_compute; reflexivity).
+  replace (subtotal_name (VStr [57])) with (Ok (VStr [115; 117; 109; 95]))
+    by (vm_compute; reflexivity).
+  replace (subtotal_name (VStr [49; 48; 57])) with (Ok (VStr [115; 117; 109; 95]))
+    by (vm_compute; reflexivity).
+  cbn [bind named_aggregate]. repeat split; reflexivity.
+Qed.
+
+(* every other literal 0..120 either names one of the six functions outside
+   this property or is rejected at compile time (ValueError) — finite domain *)
+Definition subtotal_known (n : Z) : bool :=
+  match subtotal_name (VStr (str_of_Z n)) with
+  | Ok name => match named_aggregate name with Some _ => true | None => false end
+  | Raise _ => false
+  end.
+Lemma subtotal_domain :
+  filter subtotal_known (zrange 121 0) = [1; 2; 4; 5; 9; 101; 102; 104; 105; 109].
+Proof. vm_compute. reflexivity. Qed.
+
+(* ----------------------------------------------------------- SUMPRODUCT *)
+(* a range: rows of cells *)
+Definition arr (rows : list (list pyval)) : pyval := VTuple (map VTuple rows).
+Definition shape (rows : list (list pyval)) : Z * Z :=
+  (zlen rows, match rows with r0 :: _ => zlen r0 | [] => 0 end).
+(* a rectangle of scalar cells with at least one row and one column *)
+Definition rect_ok (rows : list (list pyval)) : Prop :=
+  match rows with
+  | [] => False
+  | r0 :: _ => 1 <= zlen r0
+               /\ Forall (fun row => zlen row = zlen r0 /\ scalars row) rows
+  end.
+(* the number a cell contributes: non-numbers count as 0 *)
+Definition cellq (v : pyval) : Q := num_q (sp_cell v).
+Definition cellsq (rows : list (list pyval)) : list Q := map cellq (concat rows).
+Fixpoint zipq (a b : list Q) : list Q :=
+  match a, b with
+  | x :: a', y :: b' => (x * y)%Q :: zipq a' b'
+  | _, _ => []
+  end.
+Definition sumq (l : list Q) : Q := fold_right Qplus 0%Q l.
+
+Lemma cellq_numeric v : numeric v = true -> cellq v = qv v.
+Proof. destruct v; intros H; try discriminate; reflexivity. Qed.
+Lemma cellq_other v : numeric v = false -> cellq v = 0%Q.
+Proof. destruct v; intros H; try discriminate; reflexivity. Qed.
+
+Lemma flatten_tuple l : flatten (VTuple l) = flat_map flatten l.
+Proof.
+  cbn [flatten]. induction l as [|x l IH]; [reflexivity|].
+  cbn [flat_map]. rewrite IH. reflexivity.
+Qed.
+Lemma flatten_scalar v : scalar v = true -> flatten v = [v].
+Proof. destruct v; intros H; try discriminate; reflexivity. Qed.
+Lemma flatten_row row : scalars row -> flatten (VTuple row) = row.
+Proof.
+  intros H. rewrite flatten_tuple. induction H as [|x l Hx Hl IH]; [reflexivity|].
+  cbn [flat_map]. rewrite (flatten_scalar x Hx), IH. reflexivity.
+Qed.
+Lemma flatten_arr rows : Forall scalars rows -> flatten (arr rows) = concat rows.
+Proof.
+  intros H. unfold arr. rewrite flatten_tuple. induction H as [|r l Hr Hl IH]; [reflexivity|].
+  cbn [map flat_map concat]. rewrite (flatten_row r Hr), IH. reflexivity.
+Qed.
+
+Lemma rect_rows rows : rect_ok rows -> Forall scalars rows.
+Proof.
+  destruct rows as [|r0 rest]; [intros []|]. intros [_ H].
+  apply Forall_forall. intros row Hr. rewrite Forall_forall in H. apply (H row Hr).
+Qed.
+
+Lemma cells_arrays mats : Forall rect_ok mats ->
+  cells_of (map arr mats) = concat (map (@concat pyval) mats).
+Proof.
+  intros H. unfold cells_of. rewrite flatten_tuple.
+  induction H as [|m l Hm Hl IH]; [reflexivity|].
+  cbn [map flat_map concat]. rewrite (flatten_arr m (rect_rows m Hm)), IH. reflexivity.
+Qed.
+
+Lemma scalars_concat (rows : list (list pyval)) : Forall scalars rows -> scalars (concat rows).
+Proof.
+  intros H. induction H as [|r l Hr Hl IH]; [constructor|].
+  cbn [concat]. apply Forall_app. split; assumption.
+Qed.
+
+Lemma scalars_arrays mats : Forall rect_ok mats -> scalars (cells_of (map arr mats)).
+Proof.
+  intros H. rewrite (cells_arrays mats H).
+  apply scalars_concat. apply Forall_forall. intros c Hc. apply in_map_iff in Hc.
+  destruct Hc as (m & <- & Hm). apply scalars_concat, rect_rows.
+  rewrite Forall_forall in H. apply H, Hm.
+Qed.
+
+Lemma is_array_arg_arr r0 rest :
+  excelutil.f_is_array_arg (VTuple (VTuple r0 :: rest)) = Ok (VBool true).
+Proof.
+  unfold excelutil.f_is_array_arg, excelutil.f_is_address. py_run. reflexivity.
+Qed.
+
+Lemma sp_check_arrays b all mats : forall sizes, Forall rect_ok mats ->
+  sp_check b all (map arr mats) sizes = Ok (inr (rev (map shape mats) ++ sizes)).
+Proof.
+  induction mats as [|m mats IH]; intros sizes H; [reflexivity|].
+  inversion H as [|? ? Hm Hl]; subst.
+  destruct m as [|r0 rest]; [destruct Hm|].
+  cbn [map arr sp_check]. unfold arr at 1. cbn [map]. rewrite is_array_arg_arr. cbn [bind py_truthy].
+  change (VTuple r0 :: map VTuple rest) with (map VTuple (r0 :: rest)).
+  replace (zlen (map VTuple (r0 :: rest))) with (zlen (r0 :: rest))
+    by (unfold zlen; rewrite map_length; reflexivity).
+  fold (arr) in IH. rewrite (IH _ Hl). f_equal. f_equal.
+  cbn [rev map shape]. rewrite <- app_assoc. reflexivity.
+Qed.
+
+Lemma sp_vector_arr rows : rect_ok rows ->
+  sp_vector (arr rows) = Some (map sp_cell (concat rows)).
+Proof.
+  intros H. pose proof (rect_rows rows H) as Hr.
+  destruct rows as [|r0 rest]; [destruct H|]. destruct H as [Hc H].
+  unfold sp_vector. cbn [arr map].
+  change (VTuple r0 :: map VTuple rest) with (map VTuple (r0 :: rest)).
+  replace (1 <=? zlen r0) with true by (symmetry; apply Z.leb_le; exact Hc).
+  replace (forallb (row_ok (zlen r0)) (map VTuple (r0 :: rest))) with true.
+  - cbn [andb]. fold (arr (r0 :: rest)). rewrite (flatten_arr _ Hr). reflexivity.
+  - symmetry. rewrite forallb_forall. intros x Hx. apply in_map_iff in Hx.
+    destruct Hx as (row & <- & Hrow). rewrite Forall_forall in H.
+    destruct (H row Hrow) as [L S]. cbn [row_ok]. rewrite L, Z.eqb_refl. cbn [andb].
+    rewrite forallb_forall. intros v Hv. unfold scalars in S. rewrite Forall_forall in S.
+    specialize (S v Hv). destruct v; try discriminate; reflexivity.
+Qed.
+
+Lemma sp_vectors_arrays mats : Forall rect_ok mats ->
+  sp_vectors (map arr mats) = Some (map (fun m => map sp_cell (concat m)) mats).
+Proof.
+  intros H. induction H as [|m l Hm Hl IH]; [reflexivity|].
+  cbn [map sp_vectors]. rewrite (sp_vector_arr m Hm), IH. reflexivity.
+Qed.
+
+Lemma is_err_truthy e : is_err e = true -> py_truthy e = true.
+Proof.
+  intros H. destruct (is_err_str e H) as [s ->]. destruct s; [|reflexivity].
+  vm_compute in H. discriminate.
+Qed.
+
+Lemma sumproduct_scan args : scalars (cells_of args) ->
+  sumproduct (VTuple args)
+  = match first_error (cells_of args) with
+    | Some e => Ok e
+    | None =>
+        bind (sp_check (forallb not_tuple args) args args [])
+          (fun chk => match chk with
+             | inl v => Ok v
+             | inr sizes =>
+                 match sizes with
+                 | s0 :: ss =>
+                     if forallb (size_eqb s0) ss then
+                       match sp_vectors args with
+                       | Some vecs => Ok (num_val (sp_value vecs))
+                       | None => Raise Unmodelled
+                       end
+                     else Ok excelutil.c_VALUE_ERROR
+                 | [] => Ok excelutil.c_VALUE_ERROR
+                 end
+             end)
+    end.
+Proof.
+  intros Hs. unfold sumproduct. fold (cells_of args).
+  erewrite gen_next_find with (p := is_err); cycle 1.
+  - intros x Hx. apply py_in_codes. unfold scalars in Hs. rewrite Forall_forall in Hs. apply Hs, Hx.
+  - reflexivity.
+  - fold (first_error (cells_of args)). cbn [bind].
+    destruct (first_error (cells_of args)) as [e|] eqn:E.
+    + apply find_some in E. destruct E as [_ E]. rewrite (is_err_truthy e E). reflexivity.
+    + reflexivity.
+Qed.
+
+Lemma sumproduct_first_error args pre e post :
+  scalars (cells_of args) -> cells_of args = pre ++ e :: post ->
+  is_err e = true -> Forall (fun v => is_err v = false) pre ->
+  sumproduct (VTuple args) = Ok e.
+Proof.
+  intros Hs Hc He Hp. rewrite (sumproduct_scan args Hs), Hc, (first_error_at pre e post He Hp).
+  reflexivity.
+Qed.
+
+Lemma size_eqb_eq a b : size_eqb a b = true <-> a = b.
+Proof.
+  destruct a as [a1 a2], b as [b1 b2]. unfold size_eqb. cbn [fst snd].
+  rewrite andb_true_iff, !Z.eqb_eq. split; [intros [-> ->]; reflexivity|intros E; inversion E; auto].
+Qed.
+
+Lemma sumproduct_arrays m0 ms :
+  Forall rect_ok (m0 :: ms) -> (forall m, In m ms -> shape m = shape m0) ->
+  first_error (cells_of (map arr (m0 :: ms))) = None ->
+  sumproduct (VTuple (map arr (m0 :: ms)))
+  = Ok (num_val (sp_value (map (fun m => map sp_cell (concat m)) (m0 :: ms)))).
+Proof.
+  intros H S E. rewrite (sumproduct_scan _ (scalars_arrays _ H)), E.
+  rewrite (sp_check_arrays _ _ _ [] H). cbn [bind]. rewrite app_nil_r.
+  assert (A : forall s, In s (rev (map shape (m0 :: ms))) -> s = shape m0).
+  { intros s Hs. apply in_rev in Hs. apply in_map_iff in Hs. destruct Hs as (m & <- & [<-|Hm]);
+      [reflexivity|apply S, Hm]. }
+  destruct (rev (map shape (m0 :: ms))) as [|s0 ss] eqn:R.
+  - exfalso. apply (f_equal (@length _)) in R. rewrite rev_length, map_length in R. discriminate.
+  - replace (forallb (size_eqb s0) ss) with true.
+    + rewrite (sp_vectors_arrays _ H). reflexivity.
+    + symmetry. rewrite forallb_forall. intros s Hs. apply size_eqb_eq.
+      rewrite (A s0 (or_introl eq_refl)), (A s (or_intror Hs)). reflexivity.
+Qed.
+
+Lemma sumproduct_unequal mats m1 m2 :
+  Forall rect_ok mats -> first_error (cells_of (map arr mats)) = None ->
+  In m1 mats -> In m2 mats -> shape m1 <> shape m2 ->
+  sumproduct (VTuple (map arr mats)) = Ok excelutil.c_VALUE_ERROR.
+Proof.
+  intros H E I1 I2 D. rewrite (sumproduct_scan _ (scalars_arrays _ H)), E.
+  rewrite (sp_check_arrays _ _ _ [] H). cbn [bind]. rewrite app_nil_r.
+  destruct (rev (map shape mats)) as [|s0 ss] eqn:R; [reflexivity|].
+  destruct (forallb (size_eqb s0) ss) eqn:F; [|reflexivity].
+  exfalso. apply D.
+  assert (A : forall m, In m mats -> shape m = s0).
+  { intros m Hm. assert (G : In (shape m) (s0 :: ss)).
+    { rewrite <- R. apply -> in_rev. apply in_map, Hm. }
+    destruct G as [G|G]; [symmetry; exact G|].
+    rewrite forallb_forall in F. symmetry. apply size_eqb_eq, F, G. }
+  rewrite (A m1 I1), (A m2 I2). reflexivity.
+Qed.
+
+(* the value: mixed int/float arithmetic of the model = exact rationals *)
+Definition vq (v : list num) : list Q := map num_q v.
+Definition qlist_eq (a b : list Q) : Prop := Forall2 Qeq a b.
+
+Lemma num_mul_q a b : (num_q (num_mul a b) == num_q a * num_q b)%Q.
+Proof.
+  destruct a, b; cbn [num_mul num_q]; try apply Qred_correct.
+  rewrite inject_Z_mult. reflexivity.
+Qed.
+Lemma num_add_q a b : (num_q (num_add a b) == num_q a + num_q b)%Q.
+Proof.
+  destruct a, b; cbn [num_add num_q]; try apply Qred_correct.
+  rewrite inject_Z_plus. reflexivity.
+Qed.
+
+Lemma qlist_eq_refl a : qlist_eq a a.
+Proof. induction a; constructor; [reflexivity|assumption]. Qed.
+Lemma qlist_eq_trans a b c : qlist_eq a b -> qlist_eq b c -> qlist_eq a c.
+Proof.
+  intros H. revert c. induction H as [|x y a b Hxy Hab IH]; intros c Hc.
+  - exact Hc.
+  - inversion Hc as [|? z ? c' Hyz Hbc]; subst. constructor.
+    + rewrite Hxy. exact Hyz.
+    + apply IH, Hbc.
+Qed.
+
+Lemma zipq_proper a a' b b' : qlist_eq a a' -> qlist_eq b b' -> qlist_eq (zipq a b) (zipq a' b').
+Proof.
+  intros Ha. revert b b'. induction Ha as [|x x' a a' Hx Ha IH]; intros b b' Hb.
+  - constructor.
+  - destruct Hb as [|y y' b b' Hy Hb]; cbn [zipq]; constructor.
+    + rewrite Hx, Hy. reflexivity.
+    + apply IH, Hb.
+Qed.
+
+Lemma zip_mul_q a b : qlist_eq (vq (zip_mul a b)) (zipq (vq a) (vq b)).
+Proof.
+  revert b. induction a as [|x a IH]; intros b; [constructor|].
+  destruct b as [|y b]; cbn [zip_mul vq map zipq]; constructor.
+  - apply num_mul_q.
+  - apply IH.
+Qed.
+
+Lemma fold_zip_q vs : forall v0 q0, qlist_eq (vq v0) q0 ->
+  qlist_eq (vq (fold_left zip_mul vs v0)) (fold_left zipq (map vq vs) q0).
+Proof.
+  induction vs as [|v vs IH]; intros v0 q0 H; [exact H|].
+  cbn [fold_left map]. apply IH.
+  apply qlist_eq_trans with (zipq (vq v0) (vq v)); [apply zip_mul_q|].
+  apply zipq_proper; [exact H|apply qlist_eq_refl].
+Qed.
+
+Lemma sumq_nil : sumq [] = 0%Q.
+Proof. reflexivity. Qed.
+Lemma sumq_cons x l : sumq (x :: l) = (x + sumq l)%Q.
+Proof. reflexivity. Qed.
+Lemma vq_cons x l : vq (x :: l) = num_q x :: vq l.
+Proof. reflexivity. Qed.
+
+Lemma sumq_proper a b : qlist_eq a b -> (sumq a == sumq b)%Q.
+Proof.
+  induction 1 as [|x y a b Hxy Hab IH]; [reflexivity|].
+  rewrite !sumq_cons, Hxy, IH. reflexivity.
+Qed.
+
+Lemma fold_add_q l : forall acc,
+  (num_q (fold_left num_add l acc) == num_q acc + sumq (vq l))%Q.
+Proof.
+  induction l as [|x l IH]; intros acc.
+  - cbn [fold_left]. change (vq []) with (@nil Q). rewrite sumq_nil. ring.
+  - cbn [fold_left]. rewrite IH, num_add_q, vq_cons, sumq_cons. ring.
+Qed.
+
+Lemma sp_value_q v0 vs :
+  (num_q (sp_value (v0 :: vs)) == sumq (fold_left zipq (map vq vs) (vq v0)))%Q.
+Proof.
+  cbn [sp_value]. rewrite fold_add_q. cbn [num_q].
+  rewrite (sumq_proper _ _ (fold_zip_q vs v0 (vq v0) (qlist_eq_refl _))). ring.
+Qed.
+
+Lemma num_val_numeric n : numeric (num_val n) = true /\ qv (num_val n) = num_q n.
+Proof. destruct n; split; reflexivity. Qed.
+
+Lemma vq_cells m : vq (map sp_cell (concat m)) = cellsq m.
+Proof. unfold vq, cellsq, cellq. rewrite map_map. reflexivity. Qed.
+
+(* --- sumproduct: equally shaped ranges without an error cell *)
+Lemma sumproduct_thm m0 ms :
+  Forall rect_ok (m0 :: ms) -> (forall m, In m ms -> shape m = shape m0) ->
+  first_error (cells_of (map arr (m0 :: ms))) = None ->
+  exists r, sumproduct (VTuple (map arr (m0 :: ms))) = Ok r /\ numeric r = true
+            /\ (qv r == sumq (fold_left zipq (map cellsq ms) (cellsq m0)))%Q.
+Proof.
+  intros H S E. rewrite (sumproduct_arrays m0 ms H S E). cbn [map].
+  eexists. split; [reflexivity|].
+  destruct (num_val_numeric (sp_value (map sp_cell (concat m0)
+              :: map (fun m => map sp_cell (concat m)) ms))) as [N Q].
+  split; [exact N|]. rewrite Q, sp_value_q, map_map, vq_cells.
+  apply sumq_proper. rewrite (map_ext _ cellsq); [apply qlist_eq_refl|].
+  intros m. apply vq_cells.
+Qed.
+
+(* two ranges: the dot product; one range: the sum of its numeric cells *)
+Lemma sumproduct_two a b :
+  Forall rect_ok [a; b] -> shape b = shape a ->
+  first_error (cells_of [arr a; arr b]) = None ->
+  exists r, sumproduct (VTuple [arr a; arr b]) = Ok r /\ numeric r = true
+            /\ (qv r == sumq (zipq (cellsq a) (cellsq b)))%Q.
+Proof.
+  intros H S E. apply (sumproduct_thm a [b] H); [|exact E].
+  intros m [<-|[]]. exact S.
+Qed.
+
+Example ex_sumproduct :
+  sumproduct (VTuple [arr [[VInt 1; VStr [97]]; [VFloat (5 # 2); VBool true]];
+                      arr [[VInt 3; VInt 4]; [VInt 2; VInt 7]]]) = Ok (VFloat 8).
+Proof. vm_compute. reflexivity. Qed.
+Example ex_sumproduct_unequal :
+  sumproduct (VTuple [arr [[VInt 1; VInt 2]]; arr [[VInt 1]; [VInt 2]]]) = Ok excelutil.c_VALUE_ERROR.
+Proof. vm_compute. reflexivity. Qed.
